@@ -5,7 +5,7 @@ import vdriver as V
 H = "vnacal/c17.c"
 
 
-def jobs(tier):
+def connectivity_jobs(tier):
     J = []
     for n in ((3,) if tier == "quick" else (2, 3, 4)):
         J.append(V.Job("connectivity.n%d" % n, "vnacal/c17_conn.c", "h_connectivity",
@@ -14,6 +14,11 @@ def jobs(tier):
                        functions=["build_connectivity_matrix", "find"],
                        bound="%d ports, every zero / non-zero pattern of the S matrix (symbolic)" % n, timeout=600,
                        cbmc_flags=["--no-leak"]))
+    return J
+
+
+def jobs(tier):
+    J = connectivity_jobs(tier)
     # port order of a multi-port standard: the cell map of the common funnel places M by SORTED port and S by the
     # standard's own order, for every order of the two ports (same jobs as C01 link 2, re-run under this id):
     # entering the same standard as (p1,p2) or (p2,p1) therefore describes the same equations
